@@ -369,6 +369,13 @@ def replay (recount : Bool) (lanes : List Lane) : List Nat → Forks → List En
     let e : Entry := ⟨j, laneHandle (getKey f.key) lanes j⟩
     replay recount lanes r (enter recount f e) (e :: acc)
 
+/-- the entries `replay` goes through, as a list (what the fork-key theorems speak about) -/
+def replayEntries (recount : Bool) (lanes : List Lane) : List Nat → Forks → List Entry
+  | [], _ => []
+  | j :: r, f =>
+    let e : Entry := ⟨j, laneHandle (getKey f.key) lanes j⟩
+    e :: replayEntries recount lanes r (enter recount f e)
+
 def handleTree (recount : Bool) (lanes : List Lane) (entries : List Nat) (extra : List JT) : JT :=
   let f := (replay recount lanes entries {} []).1
   let res := lanes.foldl (fun s l => s + l.b) 0
